@@ -570,7 +570,10 @@ func cmdCheck(args []string) int {
 // is an implicit safety obligation derived from a code expression.
 func isSafetyName(rest string) bool {
 	rest = strings.TrimPrefix(rest, "/")
-	for _, p := range []string{"nil[", "bounds[", "slice[", "ovf[", "makeslice[", "nilmap[", "div", "shift", "lock-read[", "lock-write[", "conv[", "assert", "panic["} {
+	for _, p := range []string{"nil[", "bounds[", "slice[", "ovf[", "makeslice[", "nilmap[", "div", "shift", "lock-read[", "lock-write[", "conv[", "assert", "panic[",
+		// a frame obligation exists per heap the code writes: a heap that is no longer
+		// written at all has nothing left to prove
+		"frame#", "lframe#"} {
 		if strings.HasPrefix(rest, p) {
 			return true
 		}
